@@ -792,6 +792,9 @@ func (c *Ctx) boundedByGuard(n ast.Node, id *ast.Ident, base string, stop ast.No
 					}
 				}
 			}
+			if !lower && upper && c.nonNegCounter(o, n) {
+				lower = true
+			}
 			if lower && upper && !c.assignedBefore(ifs.Body, id.Name, n) && !c.assignedBefore(ifs.Body, base, n) {
 				return "index is tested `0 <= i && i < len(operand)` by the enclosing if"
 			}
@@ -862,4 +865,77 @@ func disjuncts(e ast.Expr) []ast.Expr {
 		return append(disjuncts(be.X), disjuncts(be.Y)...)
 	}
 	return []ast.Expr{e}
+}
+
+// nonNegCounter: every assignment to the integer variable in its function is a
+// non-negative constant, an increment, or `+= positive constant`: it is never negative
+// (overflow aside: it counts elements of an in-memory slice).
+func (c *Ctx) nonNegCounter(o types.Object, at ast.Node) bool {
+	fd := c.EnclosingFunc(at)
+	if fd == nil || fd.Body == nil || o == nil {
+		return false
+	}
+	if v, ok := o.(*types.Var); !ok || v.IsField() || v.Pos() < fd.Body.Pos() || v.Pos() > fd.Body.End() {
+		return false // parameters and package variables are not ours to bound
+	}
+	ok, n := true, 0
+	ast.Inspect(fd.Body, func(m ast.Node) bool {
+		switch x := m.(type) {
+		case *ast.AssignStmt:
+			for i, l := range x.Lhs {
+				id, isId := unparen(l).(*ast.Ident)
+				if !isId || c.Obj(id) != o {
+					continue
+				}
+				n++
+				if len(x.Lhs) != len(x.Rhs) {
+					ok = false
+					continue
+				}
+				k, isC := c.ConstInt(x.Rhs[i])
+				switch x.Tok {
+				case token.DEFINE, token.ASSIGN:
+					if !isC || k < 0 {
+						ok = false
+					}
+				case token.ADD_ASSIGN:
+					if !isC || k < 0 {
+						ok = false
+					}
+				default:
+					ok = false
+				}
+			}
+		case *ast.IncDecStmt:
+			if id, isId := unparen(x.X).(*ast.Ident); isId && c.Obj(id) == o {
+				n++
+				if x.Tok != token.INC {
+					ok = false
+				}
+			}
+		case *ast.UnaryExpr:
+			if id, isId := unparen(x.X).(*ast.Ident); isId && x.Op == token.AND && c.Obj(id) == o {
+				ok = false
+			}
+		case *ast.RangeStmt:
+			for _, e := range []ast.Expr{x.Key, x.Value} {
+				if id, isId := e.(*ast.Ident); isId && c.Obj(id) == o {
+					ok = false
+				}
+			}
+		case *ast.ValueSpec:
+			for i, nm := range x.Names {
+				if c.Info.Defs[nm] == o {
+					n++
+					if i < len(x.Values) {
+						if k, isC := c.ConstInt(x.Values[i]); !isC || k < 0 {
+							ok = false
+						}
+					}
+				}
+			}
+		}
+		return true
+	})
+	return ok && n > 0
 }
